@@ -6,39 +6,75 @@ open Conform
 
 theorem conforms_ml_v3_ArrayFeatureExtractor : entryOK ("ml_v3._ArrayFeatureExtractor", Generated.Ctors.ml_v3.f_array_feature_extractor, Generated.Schemas.ml_v3.s_ArrayFeatureExtractor_1) = true := by decide +kernel
 
+theorem slots_ml_v3_ArrayFeatureExtractor : slotOK ("ml_v3._ArrayFeatureExtractor", Generated.Ctors.ml_v3.f_array_feature_extractor, Generated.Schemas.ml_v3.s_ArrayFeatureExtractor_1) = true := by decide +kernel
+
 theorem conforms_ml_v3_Binarizer : entryOK ("ml_v3._Binarizer", Generated.Ctors.ml_v3.f_binarizer, Generated.Schemas.ml_v3.s_Binarizer_1) = true := by decide +kernel
+
+theorem slots_ml_v3_Binarizer : slotOK ("ml_v3._Binarizer", Generated.Ctors.ml_v3.f_binarizer, Generated.Schemas.ml_v3.s_Binarizer_1) = true := by decide +kernel
 
 theorem conforms_ml_v3_CastMap : entryOK ("ml_v3._CastMap", Generated.Ctors.ml_v3.f_cast_map, Generated.Schemas.ml_v3.s_CastMap_1) = true := by decide +kernel
 
+theorem slots_ml_v3_CastMap : slotOK ("ml_v3._CastMap", Generated.Ctors.ml_v3.f_cast_map, Generated.Schemas.ml_v3.s_CastMap_1) = true := by decide +kernel
+
 theorem conforms_ml_v3_CategoryMapper : entryOK ("ml_v3._CategoryMapper", Generated.Ctors.ml_v3.f_category_mapper, Generated.Schemas.ml_v3.s_CategoryMapper_1) = true := by decide +kernel
+
+theorem slots_ml_v3_CategoryMapper : slotOK ("ml_v3._CategoryMapper", Generated.Ctors.ml_v3.f_category_mapper, Generated.Schemas.ml_v3.s_CategoryMapper_1) = true := by decide +kernel
 
 theorem conforms_ml_v3_DictVectorizer : entryOK ("ml_v3._DictVectorizer", Generated.Ctors.ml_v3.f_dict_vectorizer, Generated.Schemas.ml_v3.s_DictVectorizer_1) = true := by decide +kernel
 
+theorem slots_ml_v3_DictVectorizer : slotOK ("ml_v3._DictVectorizer", Generated.Ctors.ml_v3.f_dict_vectorizer, Generated.Schemas.ml_v3.s_DictVectorizer_1) = true := by decide +kernel
+
 theorem conforms_ml_v3_FeatureVectorizer : entryOK ("ml_v3._FeatureVectorizer", Generated.Ctors.ml_v3.f_feature_vectorizer, Generated.Schemas.ml_v3.s_FeatureVectorizer_1) = true := by decide +kernel
+
+theorem slots_ml_v3_FeatureVectorizer : slotOK ("ml_v3._FeatureVectorizer", Generated.Ctors.ml_v3.f_feature_vectorizer, Generated.Schemas.ml_v3.s_FeatureVectorizer_1) = true := by decide +kernel
 
 theorem conforms_ml_v3_Imputer : entryOK ("ml_v3._Imputer", Generated.Ctors.ml_v3.f_imputer, Generated.Schemas.ml_v3.s_Imputer_1) = true := by decide +kernel
 
+theorem slots_ml_v3_Imputer : slotOK ("ml_v3._Imputer", Generated.Ctors.ml_v3.f_imputer, Generated.Schemas.ml_v3.s_Imputer_1) = true := by decide +kernel
+
 theorem conforms_ml_v3_LabelEncoder : entryOK ("ml_v3._LabelEncoder", Generated.Ctors.ml_v3.f_label_encoder, Generated.Schemas.ml_v3.s_LabelEncoder_2) = true := by decide +kernel
+
+theorem slots_ml_v3_LabelEncoder : slotOK ("ml_v3._LabelEncoder", Generated.Ctors.ml_v3.f_label_encoder, Generated.Schemas.ml_v3.s_LabelEncoder_2) = true := by decide +kernel
 
 theorem conforms_ml_v3_LinearClassifier : entryOK ("ml_v3._LinearClassifier", Generated.Ctors.ml_v3.f_linear_classifier, Generated.Schemas.ml_v3.s_LinearClassifier_1) = true := by decide +kernel
 
+theorem slots_ml_v3_LinearClassifier : slotOK ("ml_v3._LinearClassifier", Generated.Ctors.ml_v3.f_linear_classifier, Generated.Schemas.ml_v3.s_LinearClassifier_1) = true := by decide +kernel
+
 theorem conforms_ml_v3_LinearRegressor : entryOK ("ml_v3._LinearRegressor", Generated.Ctors.ml_v3.f_linear_regressor, Generated.Schemas.ml_v3.s_LinearRegressor_1) = true := by decide +kernel
+
+theorem slots_ml_v3_LinearRegressor : slotOK ("ml_v3._LinearRegressor", Generated.Ctors.ml_v3.f_linear_regressor, Generated.Schemas.ml_v3.s_LinearRegressor_1) = true := by decide +kernel
 
 theorem conforms_ml_v3_Normalizer : entryOK ("ml_v3._Normalizer", Generated.Ctors.ml_v3.f_normalizer, Generated.Schemas.ml_v3.s_Normalizer_1) = true := by decide +kernel
 
+theorem slots_ml_v3_Normalizer : slotOK ("ml_v3._Normalizer", Generated.Ctors.ml_v3.f_normalizer, Generated.Schemas.ml_v3.s_Normalizer_1) = true := by decide +kernel
+
 theorem conforms_ml_v3_OneHotEncoder : entryOK ("ml_v3._OneHotEncoder", Generated.Ctors.ml_v3.f_one_hot_encoder, Generated.Schemas.ml_v3.s_OneHotEncoder_1) = true := by decide +kernel
+
+theorem slots_ml_v3_OneHotEncoder : slotOK ("ml_v3._OneHotEncoder", Generated.Ctors.ml_v3.f_one_hot_encoder, Generated.Schemas.ml_v3.s_OneHotEncoder_1) = true := by decide +kernel
 
 theorem conforms_ml_v3_SVMClassifier : entryOK ("ml_v3._SVMClassifier", Generated.Ctors.ml_v3.f_svmclassifier, Generated.Schemas.ml_v3.s_SVMClassifier_1) = true := by decide +kernel
 
+theorem slots_ml_v3_SVMClassifier : slotOK ("ml_v3._SVMClassifier", Generated.Ctors.ml_v3.f_svmclassifier, Generated.Schemas.ml_v3.s_SVMClassifier_1) = true := by decide +kernel
+
 theorem conforms_ml_v3_SVMRegressor : entryOK ("ml_v3._SVMRegressor", Generated.Ctors.ml_v3.f_svmregressor, Generated.Schemas.ml_v3.s_SVMRegressor_1) = true := by decide +kernel
+
+theorem slots_ml_v3_SVMRegressor : slotOK ("ml_v3._SVMRegressor", Generated.Ctors.ml_v3.f_svmregressor, Generated.Schemas.ml_v3.s_SVMRegressor_1) = true := by decide +kernel
 
 theorem conforms_ml_v3_Scaler : entryOK ("ml_v3._Scaler", Generated.Ctors.ml_v3.f_scaler, Generated.Schemas.ml_v3.s_Scaler_1) = true := by decide +kernel
 
+theorem slots_ml_v3_Scaler : slotOK ("ml_v3._Scaler", Generated.Ctors.ml_v3.f_scaler, Generated.Schemas.ml_v3.s_Scaler_1) = true := by decide +kernel
+
 theorem conforms_ml_v3_TreeEnsembleClassifier : entryOK ("ml_v3._TreeEnsembleClassifier", Generated.Ctors.ml_v3.f_tree_ensemble_classifier, Generated.Schemas.ml_v3.s_TreeEnsembleClassifier_3) = true := by decide +kernel
+
+theorem slots_ml_v3_TreeEnsembleClassifier : slotOK ("ml_v3._TreeEnsembleClassifier", Generated.Ctors.ml_v3.f_tree_ensemble_classifier, Generated.Schemas.ml_v3.s_TreeEnsembleClassifier_3) = true := by decide +kernel
 
 theorem conforms_ml_v3_TreeEnsembleRegressor : entryOK ("ml_v3._TreeEnsembleRegressor", Generated.Ctors.ml_v3.f_tree_ensemble_regressor, Generated.Schemas.ml_v3.s_TreeEnsembleRegressor_3) = true := by decide +kernel
 
+theorem slots_ml_v3_TreeEnsembleRegressor : slotOK ("ml_v3._TreeEnsembleRegressor", Generated.Ctors.ml_v3.f_tree_ensemble_regressor, Generated.Schemas.ml_v3.s_TreeEnsembleRegressor_3) = true := by decide +kernel
+
 theorem conforms_ml_v3_ZipMap : entryOK ("ml_v3._ZipMap", Generated.Ctors.ml_v3.f_zip_map, Generated.Schemas.ml_v3.s_ZipMap_1) = true := by decide +kernel
+
+theorem slots_ml_v3_ZipMap : slotOK ("ml_v3._ZipMap", Generated.Ctors.ml_v3.f_zip_map, Generated.Schemas.ml_v3.s_ZipMap_1) = true := by decide +kernel
 
 /-- every operator/module pair of this module without a listed deviation -/
 def table : List Entry :=
@@ -85,6 +121,52 @@ theorem table_all : table.all entryOK = true :=
 
 theorem table_conforms : ∀ e ∈ table, entryOK e = true :=
   fun e he => List.all_eq_true.mp table_all e he
+
+/-- every operator/module pair of this module (deviating ones included: deviations concern attributes) -/
+def allEntries : List Entry :=
+  [
+   ("ml_v3._ArrayFeatureExtractor", Generated.Ctors.ml_v3.f_array_feature_extractor, Generated.Schemas.ml_v3.s_ArrayFeatureExtractor_1), 
+   ("ml_v3._Binarizer", Generated.Ctors.ml_v3.f_binarizer, Generated.Schemas.ml_v3.s_Binarizer_1), 
+   ("ml_v3._CastMap", Generated.Ctors.ml_v3.f_cast_map, Generated.Schemas.ml_v3.s_CastMap_1), 
+   ("ml_v3._CategoryMapper", Generated.Ctors.ml_v3.f_category_mapper, Generated.Schemas.ml_v3.s_CategoryMapper_1), 
+   ("ml_v3._DictVectorizer", Generated.Ctors.ml_v3.f_dict_vectorizer, Generated.Schemas.ml_v3.s_DictVectorizer_1), 
+   ("ml_v3._FeatureVectorizer", Generated.Ctors.ml_v3.f_feature_vectorizer, Generated.Schemas.ml_v3.s_FeatureVectorizer_1), 
+   ("ml_v3._Imputer", Generated.Ctors.ml_v3.f_imputer, Generated.Schemas.ml_v3.s_Imputer_1), 
+   ("ml_v3._LabelEncoder", Generated.Ctors.ml_v3.f_label_encoder, Generated.Schemas.ml_v3.s_LabelEncoder_2), 
+   ("ml_v3._LinearClassifier", Generated.Ctors.ml_v3.f_linear_classifier, Generated.Schemas.ml_v3.s_LinearClassifier_1), 
+   ("ml_v3._LinearRegressor", Generated.Ctors.ml_v3.f_linear_regressor, Generated.Schemas.ml_v3.s_LinearRegressor_1), 
+   ("ml_v3._Normalizer", Generated.Ctors.ml_v3.f_normalizer, Generated.Schemas.ml_v3.s_Normalizer_1), 
+   ("ml_v3._OneHotEncoder", Generated.Ctors.ml_v3.f_one_hot_encoder, Generated.Schemas.ml_v3.s_OneHotEncoder_1), 
+   ("ml_v3._SVMClassifier", Generated.Ctors.ml_v3.f_svmclassifier, Generated.Schemas.ml_v3.s_SVMClassifier_1), 
+   ("ml_v3._SVMRegressor", Generated.Ctors.ml_v3.f_svmregressor, Generated.Schemas.ml_v3.s_SVMRegressor_1), 
+   ("ml_v3._Scaler", Generated.Ctors.ml_v3.f_scaler, Generated.Schemas.ml_v3.s_Scaler_1), 
+   ("ml_v3._TreeEnsembleClassifier", Generated.Ctors.ml_v3.f_tree_ensemble_classifier, Generated.Schemas.ml_v3.s_TreeEnsembleClassifier_3), 
+   ("ml_v3._TreeEnsembleRegressor", Generated.Ctors.ml_v3.f_tree_ensemble_regressor, Generated.Schemas.ml_v3.s_TreeEnsembleRegressor_3), 
+   ("ml_v3._ZipMap", Generated.Ctors.ml_v3.f_zip_map, Generated.Schemas.ml_v3.s_ZipMap_1)]
+
+theorem slots_all : allEntries.all slotOK = true :=
+  all_cons slots_ml_v3_ArrayFeatureExtractor (
+  all_cons slots_ml_v3_Binarizer (
+  all_cons slots_ml_v3_CastMap (
+  all_cons slots_ml_v3_CategoryMapper (
+  all_cons slots_ml_v3_DictVectorizer (
+  all_cons slots_ml_v3_FeatureVectorizer (
+  all_cons slots_ml_v3_Imputer (
+  all_cons slots_ml_v3_LabelEncoder (
+  all_cons slots_ml_v3_LinearClassifier (
+  all_cons slots_ml_v3_LinearRegressor (
+  all_cons slots_ml_v3_Normalizer (
+  all_cons slots_ml_v3_OneHotEncoder (
+  all_cons slots_ml_v3_SVMClassifier (
+  all_cons slots_ml_v3_SVMRegressor (
+  all_cons slots_ml_v3_Scaler (
+  all_cons slots_ml_v3_TreeEnsembleClassifier (
+  all_cons slots_ml_v3_TreeEnsembleRegressor (
+  all_cons slots_ml_v3_ZipMap (
+  all_nil))))))))))))))))))
+
+theorem table_slots : ∀ e ∈ allEntries, slotOK e = true :=
+  fun e he => List.all_eq_true.mp slots_all e he
 
 /-- pairs with listed deviations (known findings), each with what is excepted -/
 def deviating : List (List String × Entry) :=
